@@ -44,13 +44,23 @@ def sep_cases(draw):
     rel = [draw(gen.logfloat(1e-6, 1e3)) for _ in range(n)]
     zeros = draw(st.sampled_from([0, 0, 1, 2]))
     form = draw(st.sampled_from(["scalar", "array64", "array64", "array32", "list", "matrix"]))
-    return {"r0": r0, "L0": L0, "rel": sorted(rel), "zeros": zeros, "form": form, "k": draw(gen.logfloat(0.2, 5.0))}
+    # separations at which the dimensionless argument 2 pi r / L0 of the closed forms is (to the last bit) a round number:
+    # the natural places for an implementation to switch between a series and an asymptotic form
+    xs = draw(st.lists(st.sampled_from([1.0, 0.5, 2.0, 0.25, 4.0, 0.75, 3.0, 10.0, 0.1, 1e-2, 1e-3]), max_size=2))
+    return {"r0": r0, "L0": L0, "rel": sorted(rel), "zeros": zeros, "form": form, "k": draw(gen.logfloat(0.2, 5.0)), "xs": xs}
 
 
 def sep_body(ctx, case):
     turb, sc, kl = T()
     r0, L0, form = case["r0"], case["L0"], case["form"]
     r = np.array([0.0] * case["zeros"] + [x * L0 for x in case["rel"]])
+    if case.get("xs"):
+        sp = []
+        for x in case["xs"]:
+            r_ = x * L0 / (2 * math.pi)
+            sp += [float(np.nextafter(r_, 0.0)), r_, float(np.nextafter(r_, np.inf)), x * L0, x * L0 / math.pi]
+        r = np.concatenate([np.array(sp), r]) if form == "scalar" else np.concatenate([r, np.array(sp)])
+        ctx.classes["round_dimensionless_arguments"] += 1
     if form == "scalar":
         r = r[:1]
     if form == "matrix":
